@@ -1073,6 +1073,13 @@ class Evaluator:
                 v2 = subst_types(v2, m)
             if any(x[0] in ('ALLOC', 'OWN', 'MUTCALL', 'PANIC', 'HOOK', 'DESC', 'ASC', 'SET') for x in walk(t2)):
                 return (v2, cat(pre, ['HELPER', tname(f), t2]))
+            # a private accessor (`fn inner(&mut self) -> &mut I { self.input }`): the place it projects to, not a call
+            sv2 = strip(v2)
+            if t2 == ['eps'] and isinstance(sv2, tuple) and sv2 and sv2[0] == 'field':
+                return (v2, pre)
+            # a private constructor (`fn new(bytes) -> Self { Self { bytes, position: 0 } }`): the value it builds
+            if t2 == ['eps'] and isinstance(sv2, tuple) and sv2 and sv2[0] == 'adt' and hf.get('kind') == 'AssocFn':
+                return (v2, pre)
             if not hasattr(self, '_pure_helpers'):
                 self._pure_helpers = set()
             self._pure_helpers.add(f)
